@@ -137,11 +137,12 @@ CLAIMED["C17"] = dict(
     note=TB + "Not decided: numeric round trips, the decimal-number grammar (hand-written automaton), nested tokenising, glob semantics of the shared algorithm, variable-resolution fixed point, delimited-table round trip.")
 
 CLAIMED["C10"] = dict(
-    engine="E1",
-    technique="static analysis: call-graph reachability of doStep()/step() from loops and their exit conditions, dominance/ordering of the constraint-policy installation, argument provenance of bracketing/line-search calls, restore-before-return path rule, feasible state-preserving-cycle search on every loop",
+    engine="E1+E5",
+    technique="static analysis: call-graph reachability of doStep()/step() from loops and their exit conditions, dominance/ordering of the constraint-policy installation, argument provenance of bracketing/line-search calls, restore-before-return path rule, feasible state-preserving-cycle search on every loop, evaluation-point freshness typestate, evaluation accounting, abscissa/value pairing of parallel transfers (pairs grounded in evaluation events, propagated and cross-checked per straight-line region)",
     level=("Narrow structural claim: the only loops driving an optimiser's own steps are capped by the evaluation budget; the automatic/ignore constraint policy is installed on the optimiser's own list before anything is "
-           "evaluated, covers every parameter, is re-applied on copy, and bracketing/line search work on that list; a step that gives up restores the objective before reporting the old value; no loop can cycle without changing state."),
-    note=TB + "Not decided: descent, reported value = f(reported point) in general, convergence on quadratics, feasibility of every evaluation, bracketing triples: these are values of runs.")
+           "evaluated, covers every parameter, is re-applied on copy, and bracketing/line search work on that list; a step that gives up restores the objective before reporting the old value; no loop can cycle without changing state; the objective is evaluated at the abscissa its value is then filed under; "
+           "every move, shift, swap, selection or bracket update of an evaluated point keeps the value with its abscissa."),
+    note=TB + "Not decided: descent, reported value = f(reported point) beyond the pairing of transfers, convergence on quadratics, feasibility of every evaluation, bracketing triples: these are values of runs.")
 
 CLAIMED["C08"] = dict(
     engine="E1",
